@@ -2030,8 +2030,8 @@ def run(ctx: Ctx) -> None:
         if name.startswith("nested"):
             if ctx.quick:
                 return 5000
-            if not name.endswith("failing"):
-                return 40000  # thorough: the failing variant is explored completely, this one in part
+            if not name.endswith("failing") or "nocb" in name:
+                return 40000  # thorough: the failing variant is explored completely, the others in part
         return max_states
 
     covers = lean_batch([{"m": "writern.cover", "cfg": general_cfg(c), "maxStates": cap(n), "nc": bool(c.get("nocb"))}
@@ -2077,9 +2077,17 @@ def run(ctx: Ctx) -> None:
     for it in items:
         it["marker"] = marker
     ctx.rng.shuffle(items)
+    # the cover answers hold up to a few hundred thousand schedules: drop what the items do not reference and keep the
+    # garbage collector of the forked workers from touching (and thereby copying) the parent's heap
+    import gc
+
+    del covers, plans, scheds
+    gc.collect()
+    gc.freeze()
     try:
         parts = pmap(_work, items)
     finally:
+        gc.unfreeze()
         if os.path.exists(marker):
             os.remove(marker)
     infra = []
